@@ -13,7 +13,7 @@ META = {
                    "R6 validators reject by default: every string->enum parser's fall-through arm is an error, every constant regular expression that validates an operand or a primary name is anchored at both ends; "
                    "R7 panic audit (DESIGN section 3) over everything reachable from find_main: 300+ sites discharged by the zone/interval domain, by category or by a reviewed table with machine-checked side conditions; declared preconditions verified at every call site; recursion whose depth is input-controlled is reported; "
                    "R8 progress: every iteration of the two argument-scanning loops passes an increment of the scan index",
-    "decides": "that rejection happens before any effect and ends in a non-zero status, the operator/operand state machine of the parser, that validators cannot fall through to acceptance, that no panic-capable construct in find's own code is reachable without a proof or reviewed argument, and that the parser's loops make progress",
+    "decides": "R9: integers are converted only from text established to be digits (no sign); R10: a token is classified once, at the scan position (no look-back except the reviewed `{} +`), the empty-parentheses diagnostic is tied to nothing-parsed-since-(; R6 also: a -regex operand is compiled as written before any derived form; that rejection happens before any effect and ends in a non-zero status, the operator/operand state machine of the parser, that validators cannot fall through to acceptance, that no panic-capable construct in find's own code is reachable without a proof or reviewed argument, and that the parser's loops make progress",
     "does_not_decide": "panics inside dependencies other than the documented-panicking conversions that are enumerated as sites; termination of the walk itself; failures of the output stream (a broken pipe makes the reviewed `.unwrap()` on writes panic: the state of the output pipe is outside the property's quantifier)",
     "assumptions": ["argv[0] is present (execve convention)", "timestamps stamped by the kernel (st_ctime) come from a present-day clock"],
 }
@@ -509,6 +509,33 @@ def _digit_closure(prog, o):
             continue
         rets = prim.origin_of_local(cf, 0).strip()
         if rets.k == "call" and rets.a["name"] in ("is_ascii_digit",):
+            return True
+        # the same test spelled as a range: `matches!(b, b'0'..=b'9')`, `(b'0'..=b'9').contains(&b)`, `b >= b'0' && b <= b'9'`
+        bounds = set()
+        other = False
+        for b_ in cf.reachable():
+            for s_ in cf.blocks[b_].stmts:
+                if s_.rv is not None and s_.rv.k == "bin" and s_.rv.j["op"] in ("Le", "Ge", "Lt", "Gt", "Eq", "Ne"):
+                    for o_ in s_.rv.ops:
+                        if o_.kind == "const":
+                            v_ = o_.const_value()
+                            v_ = ord(v_) if isinstance(v_, str) and len(v_) == 1 else v_
+                            if v_ in (48, 57):
+                                bounds.add(v_)
+                            else:
+                                other = True
+            t_ = cf.blocks[b_].term
+            if t_.k == "call" and t_.j.get("callee_name") == "contains":
+                for cst in prim.origin_of_operand(cf, t_.args[0]).consts():
+                    v_ = cst.get("v")
+                    v_ = ord(v_) if isinstance(v_, str) and len(v_) == 1 else v_
+                    if v_ in (48, 57):
+                        bounds.add(v_)
+                    elif isinstance(v_, int) and not isinstance(v_, bool):
+                        other = True
+            elif t_.k == "call" and not (t_.j.get("callee_name") in ("deref", "clone", "into", "from")):
+                other = True
+        if bounds == {48, 57} and not other:
             return True
     return False
 
